@@ -434,6 +434,11 @@ func (x *CommonLex) LexName(c rune) (int, TokVal) {
 				x.err = fmt.Errorf("Name requires local part.")
 				return xutils.ERR, nil
 			}
+			if !x.IsNameStartChar(c) {
+				x.SetError(fmt.Errorf(
+					"Badly formatted QName (local part cannot start with '%c').", c))
+				return xutils.ERR, nil
+			}
 			localPartBuf := x.ConstructToken(c, nameMatcher, "NAME")
 			localPart = localPartBuf.String()
 			prefix = name.String()
